@@ -6,3 +6,5 @@ pub mod rdh;
 pub mod walker;
 pub mod words;
 pub mod corrupt;
+pub mod models;
+pub mod rdhwalk;
